@@ -67,9 +67,17 @@ func (l *c10Loop) run(buf []byte, n int) (*Message, error) {
 func (l *c10Loop) runSeq(datagrams [][]byte) ([]*Message, error) {
 	var got []*Message
 	done := make(chan struct{})
+	sentinels := 0
 	h := func(m *Message) {
 		if id, _ := m.GetCallID(); id == "verif-sentinel" {
-			close(done)
+			sentinels++
+			if sentinels == 1 {
+				close(done)
+			} else {
+				// the sentinel datagram was delivered twice: record it as a delivery,
+				// the sequence oracle then reports the surplus message
+				got = append(got, m)
+			}
 			return
 		}
 		got = append(got, m)
